@@ -323,6 +323,10 @@ func runC04(c *core.Ctx) {
 	c.Rule("R6", "exact-length reader counts bytes and maps early EOF correctly (shared with C08-R7)", 1)
 	importObligations(c, runC08, "R6", func(o *core.Obligation) bool { return o.Rule == "R7" })
 
+	// ---- R7 stripping counts from the start of the frame
+	c.Rule("R7", "bytes stripped from a decoded frame are counted from the frame's first byte (the strip runs over the reader that starts with the header, or the count subtracts the header length)", 1)
+	runStripBase(c)
+
 	// ---- R5 delimiter match
 	for _, fc := range codecs {
 		if fc.read == nil {
@@ -572,8 +576,14 @@ func runC04R2(c *core.Ctx, codecs []*frameCodec) {
 			if _, isC := core.ConstInt(x); isC {
 				x, y = y, x
 			}
-			if core.ParamOf(fn, x) < 0 || !isIntT(x.Type()) {
+			if !isIntT(x.Type()) {
 				return
+			}
+			if core.ParamOf(fn, x) < 0 {
+				// validated after construction: a load of an int field of the codec being built
+				if f, _ := core.FieldOf(x); f == nil {
+					return
+				}
 			}
 			if k, isC := core.ConstInt(y); isC {
 				admitted[k] = true
@@ -775,4 +785,90 @@ func fieldUsedInBoth(p *core.Prog, fc *frameCodec, f *types.Var) bool {
 		})
 	}
 	return uses(fc.read) && uses(fc.write) && !written
+}
+
+// runStripBase: every io.CopyN(io.Discard, src, n) in the frame package that skips the leading bytes of a
+// frame either reads from a reader whose first part is the header bytes already consumed from the wire
+// (io.MultiReader(bytes.NewReader(header), body)) or uses a count from which the header length was subtracted.
+// Skipping n bytes of the body alone removes payload bytes the configuration asked to keep.
+func runStripBase(c *core.Ctx) {
+	p := c.P
+	resolve := func(v ssa.Value) ssa.Value {
+		for d := 0; d < 4; d++ {
+			v = core.Unwrap(v)
+			if prm, ok := v.(*ssa.Parameter); ok {
+				if a := core.ParamArg(prm); a != nil {
+					v = a
+					continue
+				}
+			}
+			break
+		}
+		return v
+	}
+	n := 0
+	for _, fn := range p.Funcs {
+		if p.PkgRel(fn) != "codec/frame" {
+			continue
+		}
+		core.AllInstrs(fn, func(in ssa.Instruction) {
+			if !core.IsPkgFunc(in, "io", "CopyN") {
+				return
+			}
+			cc := core.CallCommon(in)
+			isDiscard := false
+			if ld, ok := core.Unwrap(cc.Args[0]).(*ssa.UnOp); ok {
+				if g, ok := ld.X.(*ssa.Global); ok && g.Name() == "Discard" {
+					isDiscard = true
+				}
+			}
+			if !isDiscard {
+				return
+			}
+			n++
+			c.Instance("R7")
+			src := resolve(cc.Args[1])
+			fromHeader := false
+			if call, ok := src.(*ssa.Call); ok && core.IsPkgFunc(call, "io", "MultiReader") {
+				// first element of the variadic slice
+				var cells []ssa.Value
+				if sl, ok := core.Unwrap(call.Call.Args[0]).(*ssa.Slice); ok {
+					if al, ok := sl.X.(*ssa.Alloc); ok {
+						for _, ref := range *al.Referrers() {
+							if ia, ok := ref.(*ssa.IndexAddr); ok {
+								cells = append(cells, ia)
+							}
+						}
+					}
+				}
+				for _, v := range cells {
+					ia, ok := v.(*ssa.IndexAddr)
+					if !ok {
+						continue
+					}
+					if k, isC := core.ConstInt(ia.Index); !isC || k != 0 {
+						continue
+					}
+					for _, ref := range *ia.Referrers() {
+						if st, ok := ref.(*ssa.Store); ok && st.Addr == ssa.Value(ia) {
+							if first, ok := core.Unwrap(st.Val).(*ssa.Call); ok && (core.IsPkgFunc(first, "bytes", "NewReader") || core.IsPkgFunc(first, "bytes", "NewBuffer")) {
+								fromHeader = true
+							}
+						}
+					}
+				}
+			}
+			subtracts := false
+			for v := range taintBack(cc.Args[2]) {
+				if b, ok := v.(*ssa.BinOp); ok && b.Op == token.SUB {
+					subtracts = true
+				}
+			}
+			c.Check(fromHeader || subtracts, "R7", "strip-base/"+core.FName(fn), p.InstrPos(in), "the skipped bytes are counted from the first byte of the frame", "leading bytes are skipped on a reader that does not start with the frame's header, with a count that does not subtract the header length: payload bytes are dropped")
+		})
+	}
+	if n == 0 {
+		c.Instance("R7")
+		c.OK("R7", "strip-base", "", "no decoder skips leading bytes with io.CopyN")
+	}
 }
